@@ -462,3 +462,174 @@ Print Assumptions C06_to_rs_def.
 Print Assumptions C06_machine_equals_rust.
 Print Assumptions C06_machine_nonvacuous.
 Print Assumptions C06_machine_spec_refuses.
+
+(* ==== the small functions of c/blake3.c, TRANSLATED from the source text =============================
+   gen/GenCHasherSmall.v is regenerated from c/blake3.c, c/blake3.h and c/blake3_impl.h on every run
+   (tools/gen_coq.py gen_c_hasher_small): struct declarations -> records (members in declaration order),
+   every statement of the functions below in source order with the source's constants, flag names, member
+   names and argument positions; anything the translator does not recognise is an AnchorError.  The
+   theorems say that the translated function equals the definition Model/CHasher.v uses, for all
+   arguments; hypotheses are the array lengths of the C declarations (cs_shape / hasher_shape) and
+   `input_len = length of input`.  Proofs in Proofs/GenCHasherSmallP.v. *)
+From V Require Import Base.Arr gen.GenCHasherSmall Proofs.GenCHasherSmallP.
+
+(* how a translated record is read into the model's (by member NAME), the array lengths the C declarations
+   promise, and the model's stand-ins for the functions the translation leaves as parameters *)
+Theorem C06_src_repr_def :
+  (forall s, cs_of_src s = mkCS (blake3_chunk_state_cv s) (blake3_chunk_state_chunk_counter s)
+                               (blake3_chunk_state_buf s) (blake3_chunk_state_buf_len s)
+                               (blake3_chunk_state_blocks_compressed s) (blake3_chunk_state_flags s)) /\
+  (forall o, output_of_src o = mkOutput (output_t_input_cv o) (output_t_block o) (output_t_block_len o)
+                                        (output_t_counter o) (output_t_flags o)) /\
+  (forall h : src_blake3_hasher (list (list N)),
+     hasher_of_src h = mkCH (blake3_hasher_key h) (cs_of_src (blake3_hasher_chunk h))
+                            (blake3_hasher_cv_stack_len h) (blake3_hasher_cv_stack h)) /\
+  (forall h, hasher_of_src (src_of_hasher h) = h) /\ (forall h, src_of_hasher (hasher_of_src h) = h) /\
+  (forall s, cs_shape s <-> length (blake3_chunk_state_cv s) = 8%nat /\ length (blake3_chunk_state_buf s) = 64%nat) /\
+  (forall h : src_blake3_hasher (list (list N)),
+     hasher_shape h <-> length (blake3_hasher_key h) = 8%nat /\ cs_shape (blake3_hasher_chunk h)) /\
+  (forall p self input input_len use_tbb,
+     m_update_base p self input input_len use_tbb =
+     if use_tbb then Panic 0
+     else match c_hasher_update p (hasher_of_src self) (firstn (N.to_nat input_len) input) with
+          | Ok h => Ok (src_of_hasher h) | Panic c => Panic c | OutOfFuel => OutOfFuel end) /\
+  (forall p self seek out out_len,
+     m_finalize_seek p self seek out out_len =
+     match c_hasher_finalize_seek p (hasher_of_src self) seek out_len with
+     | Ok bs => Ok (arr_store out 0 bs) | Panic c => Panic c | OutOfFuel => OutOfFuel end) /\
+  (forall s, m_strlen s = match c_strlen_prefix s with
+                          | Ok r => Ok (nlen r) | Panic c => Panic c | OutOfFuel => OutOfFuel end) /\
+  (forall (A B : Type) (f : A -> B) r,
+     res_map f r = match r with Ok a => Ok (f a) | Panic c => Panic c | OutOfFuel => OutOfFuel end).
+Proof.
+  split; [reflexivity|]. split; [reflexivity|]. split; [reflexivity|].
+  split; [exact hasher_of_src_of_hasher|]. split; [exact src_of_hasher_of_src|].
+  split; [intros s; unfold cs_shape; tauto|]. split; [intros h; unfold hasher_shape; tauto|].
+  split; [reflexivity|]. split; [reflexivity|]. split; reflexivity.
+Qed.
+
+(* c/blake3_impl.h *)
+Theorem C06_src_load_key_words : forall key key_words, length key = 32%nat -> length key_words = 8%nat ->
+  src_load_key_words key key_words = words_of_bytes key.
+Proof. exact src_load_key_words_eq. Qed.
+
+Theorem C06_src_store_cv_words : forall bytes_out cv_words, length bytes_out = 32%nat -> length cv_words = 8%nat ->
+  src_store_cv_words bytes_out cv_words = bytes_of_words cv_words.
+Proof. exact src_store_cv_words_eq. Qed.
+
+(* chunk_state_* *)
+Theorem C06_src_chunk_state_init : forall self key flags, cs_shape self -> length key = 8%nat ->
+  cs_of_src (src_chunk_state_init self key flags) = c_cs_init key flags.
+Proof. exact src_chunk_state_init_eq. Qed.
+
+Theorem C06_src_chunk_state_reset : forall self key chunk_counter, cs_shape self -> length key = 8%nat ->
+  cs_of_src (src_chunk_state_reset self key chunk_counter) = c_cs_reset (cs_of_src self) key chunk_counter.
+Proof. exact src_chunk_state_reset_eq. Qed.
+
+(* includes the Panic cases: buf_len > 64 (BLAKE3_BLOCK_LEN - buf_len wraps), buf_len + take > 255 *)
+Theorem C06_src_chunk_state_fill_buf : forall self input input_len,
+  length (blake3_chunk_state_buf self) = 64%nat -> input_len = nlen input ->
+  res_map (fun r => (cs_of_src (fst r), snd r)) (src_chunk_state_fill_buf self input input_len)
+  = c_cs_fill_buf (cs_of_src self) input.
+Proof. exact src_chunk_state_fill_buf_eq. Qed.
+
+Theorem C06_src_chunk_state_maybe_start_flag : forall self,
+  src_chunk_state_maybe_start_flag self = c_cs_start_flag (cs_of_src self).
+Proof. exact src_chunk_state_maybe_start_flag_eq. Qed.
+
+(* make_output has no separate definition in the model: it is the constructor mkOutput (cv, block, block_len,
+   counter, flags) *)
+Theorem C06_src_make_output : forall input_cv block block_len counter flags,
+  length input_cv = 8%nat -> length block = 64%nat ->
+  output_of_src (src_make_output input_cv block block_len counter flags)
+  = mkOutput input_cv block block_len counter flags.
+Proof. exact src_make_output_eq. Qed.
+
+(* the third hypothesis: the selected compression kernel returns 8 words *)
+Theorem C06_src_output_chaining_value : forall p self cv,
+  length (output_t_input_cv self) = 8%nat -> length cv = 32%nat ->
+  length (p_compress_in_place p (output_t_input_cv self) (output_t_block self) (output_t_block_len self)
+            (output_t_counter self) (output_t_flags self)) = 8%nat ->
+  src_output_chaining_value (p_compress_in_place p) self cv = c_output_chaining_value p (output_of_src self).
+Proof. exact src_output_chaining_value_eq. Qed.
+
+Theorem C06_src_chunk_state_output : forall self, cs_shape self ->
+  output_of_src (src_chunk_state_output self) = c_cs_output (cs_of_src self).
+Proof. exact src_chunk_state_output_eq. Qed.
+
+Theorem C06_src_parent_output : forall block key flags, length block = 64%nat -> length key = 8%nat ->
+  output_of_src (src_parent_output block key flags) = c_parent_output block key flags.
+Proof. exact src_parent_output_eq. Qed.
+
+(* blake3_hasher: cv_stack is passed through untouched (the model's `mem`) *)
+Theorem C06_src_hasher_init_base : forall (self : src_blake3_hasher (list (list N))) key flags,
+  hasher_shape self -> length key = 8%nat ->
+  hasher_of_src (src_hasher_init_base self key flags) = c_hasher_init_base (blake3_hasher_cv_stack self) key flags.
+Proof. exact src_hasher_init_base_eq. Qed.
+
+Theorem C06_src_blake3_hasher_init : forall self : src_blake3_hasher (list (list N)), hasher_shape self ->
+  hasher_of_src (src_blake3_hasher_init self) = c_hasher_init (blake3_hasher_cv_stack self).
+Proof. exact src_blake3_hasher_init_eq. Qed.
+
+Theorem C06_src_blake3_hasher_init_keyed : forall (self : src_blake3_hasher (list (list N))) key,
+  hasher_shape self -> length key = 32%nat ->
+  Ok (hasher_of_src (src_blake3_hasher_init_keyed self key)) = c_hasher_init_keyed (blake3_hasher_cv_stack self) key.
+Proof. exact src_blake3_hasher_init_keyed_eq. Qed.
+
+(* `bool use_tbb = false; blake3_hasher_update_base(self, input, input_len, use_tbb);` *)
+Theorem C06_src_blake3_hasher_update : forall p (self : src_blake3_hasher (list (list N))) input input_len,
+  input_len = nlen input ->
+  res_map hasher_of_src (src_blake3_hasher_update (m_update_base p) self input input_len)
+  = c_hasher_update p (hasher_of_src self) input.
+Proof. exact src_blake3_hasher_update_eq. Qed.
+
+(* `blake3_hasher_finalize_seek(self, 0, out, out_len);` *)
+Theorem C06_src_blake3_hasher_finalize : forall p (self : src_blake3_hasher (list (list N))) out out_len,
+  src_blake3_hasher_finalize (m_finalize_seek p) self out out_len
+  = res_map (fun bs => arr_store out 0 bs) (c_hasher_finalize p (hasher_of_src self) out_len).
+Proof. exact src_blake3_hasher_finalize_eq. Qed.
+
+(* `u` = the contents of the local `blake3_hasher context_hasher;` before hasher_init_base; the model fixes the
+   cv_stack of that local to c_local_stack *)
+Theorem C06_src_blake3_hasher_init_derive_key_raw : forall p (self u : src_blake3_hasher (list (list N))) context context_len,
+  hasher_shape self -> hasher_shape u -> blake3_hasher_cv_stack u = c_local_stack -> context_len = nlen context ->
+  res_map hasher_of_src
+    (src_blake3_hasher_init_derive_key_raw (m_update_base p) (m_finalize_seek p) self context context_len u)
+  = c_hasher_init_derive_key_raw p (blake3_hasher_cv_stack self) context.
+Proof. exact src_blake3_hasher_init_derive_key_raw_eq. Qed.
+
+Theorem C06_src_blake3_hasher_init_derive_key : forall p (self u : src_blake3_hasher (list (list N))) context,
+  hasher_shape self -> hasher_shape u -> blake3_hasher_cv_stack u = c_local_stack ->
+  res_map hasher_of_src
+    (src_blake3_hasher_init_derive_key (m_update_base p) (m_finalize_seek p) m_strlen self context u)
+  = c_hasher_init_derive_key p (blake3_hasher_cv_stack self) context.
+Proof. exact src_blake3_hasher_init_derive_key_eq. Qed.
+
+Theorem C06_src_blake3_hasher_reset : forall self : src_blake3_hasher (list (list N)), hasher_shape self ->
+  hasher_of_src (src_blake3_hasher_reset self) = c_hasher_reset (hasher_of_src self).
+Proof. exact src_blake3_hasher_reset_eq. Qed.
+
+(* finalize_seek writes exactly out_len bytes, on any platform record (used for the context key above) *)
+Theorem C06_src_finalize_seek_length : forall p h seek n bs, c_hasher_finalize_seek p h seek n = Ok bs -> nlen bs = n.
+Proof. exact c_hasher_finalize_seek_length. Qed.
+
+Print Assumptions C06_src_repr_def.
+Print Assumptions C06_src_load_key_words.
+Print Assumptions C06_src_store_cv_words.
+Print Assumptions C06_src_chunk_state_init.
+Print Assumptions C06_src_chunk_state_reset.
+Print Assumptions C06_src_chunk_state_fill_buf.
+Print Assumptions C06_src_chunk_state_maybe_start_flag.
+Print Assumptions C06_src_make_output.
+Print Assumptions C06_src_output_chaining_value.
+Print Assumptions C06_src_chunk_state_output.
+Print Assumptions C06_src_parent_output.
+Print Assumptions C06_src_hasher_init_base.
+Print Assumptions C06_src_blake3_hasher_init.
+Print Assumptions C06_src_blake3_hasher_init_keyed.
+Print Assumptions C06_src_blake3_hasher_update.
+Print Assumptions C06_src_blake3_hasher_finalize.
+Print Assumptions C06_src_blake3_hasher_init_derive_key_raw.
+Print Assumptions C06_src_blake3_hasher_init_derive_key.
+Print Assumptions C06_src_blake3_hasher_reset.
+Print Assumptions C06_src_finalize_seek_length.
